@@ -62,6 +62,36 @@ def sqlite_registered(program) -> Dict[str, str]:
     return out
 
 
+def _registration_callees(program, py: str):
+    """the math. / numpy. functions a registered callable computes with, and the int-valued one it returns unconverted (if any):
+    `math.floor` itself, or a helper of the SQLite module whose body is looked into"""
+    int_fns = facts.PYTHON_INT_VALUED_OF_FLOAT
+    mod = program.module("SQLite")
+    helper = next((f for f in mod.tree.body if isinstance(f, ast.FunctionDef) and f.name == py), None)
+    if helper is None:
+        return {py}, (py if py in int_fns else None)
+    callees = {dotted_name(c.func) for c in ast.walk(helper) if isinstance(c, ast.Call) and (dotted_name(c.func) or "").split(".")[0] in ("math", "numpy", "np")}
+    parents = {}
+    for n in ast.walk(helper):
+        for ch in ast.iter_child_nodes(n):
+            parents[ch] = n
+    raw = None
+    for c in ast.walk(helper):
+        if isinstance(c, ast.Call) and dotted_name(c.func) in int_fns:
+            p_, child, safe = parents.get(c), c, False
+            while p_ is not None and not safe:
+                if isinstance(p_, ast.Call) and dotted_name(p_.func) == "float":
+                    safe = True
+                elif isinstance(p_, ast.IfExp) and child is p_.body and "isinstance" in unparse(p_.test) and "int" in unparse(p_.test):
+                    safe = True
+                elif isinstance(p_, ast.If) and child in p_.body and "isinstance" in unparse(p_.test) and "int" in unparse(p_.test):
+                    safe = True
+                child, p_ = p_, parents.get(p_)
+            if not safe:
+                raw = dotted_name(c.func)
+    return callees, raw
+
+
 def term_methods(program) -> Dict[str, Dict]:
     """op -> info (inline flag, docstring) from the Term methods that build expressions"""
     out: Dict[str, Dict] = {}
@@ -184,12 +214,28 @@ def _sql_s1(program, res, dialect: sqlexpr.Dialect, rows, registered, tmeth):
             continue
         if model == "SQLiteModel" and name.lower() in registered and op in facts.SQLITE_REGISTRATION_MEANING:
             py = registered[name.lower()]
-            if py not in facts.SQLITE_REGISTRATION_MEANING[op]:
+            callees, int_valued = _registration_callees(program, py)
+            if not callees or not callees <= facts.SQLITE_REGISTRATION_MEANING[op]:
                 res.fail("C05-S1", "SQLite:SQLiteModel.prepare_connection", f"registration:{name.lower()}",
-                         f"SQLite function `{name.lower()}` (the realisation of `{op}`) is registered as {py}, expected one of "
+                         f"SQLite function `{name.lower()}` (the realisation of `{op}`) is registered as {py} (computing with {sorted(callees)}), expected one of "
                          f"{sorted(facts.SQLITE_REGISTRATION_MEANING[op])}", "data_algebra/SQLite.py", 0)
                 continue
         res.ok("C05-S1", inst, {"function": name, "source": "registered" if (model == "SQLiteModel" and name.lower() in registered) else "built-in"})
+    if model == "SQLiteModel":
+        # registered functions that templates (not only catalogue rows) name: what each is registered as, decided once per name
+        for rn in sorted(set(registered) & set(facts.SQLITE_REGISTRATION_MEANING)):
+            callees, int_valued = _registration_callees(program, registered[rn])
+            if not callees or not callees <= facts.SQLITE_REGISTRATION_MEANING[rn]:
+                res.fail("C05-S1", "SQLite:SQLiteModel.prepare_connection", f"registration:{rn}",
+                         f"SQLite function `{rn}` is registered as {registered[rn]} (computing with {sorted(callees)}), expected one of "
+                         f"{sorted(facts.SQLITE_REGISTRATION_MEANING[rn])}", "data_algebra/SQLite.py", 0)
+            elif int_valued:
+                res.fail("C05-S1", "SQLite:SQLiteModel.prepare_connection", f"registration-integer-valued:{rn}",
+                         f"SQLite function `{rn}` hands back the Python int of {int_valued} also for a REAL argument: the column turns INTEGER and a following `/` "
+                         f"is SQLite's integer division — x.floor() / 2 for x = 1.5, 3.5 gives 0, 1 on SQLite and 0.5, 1.5 on Pandas (numpy keeps the float type)",
+                         "data_algebra/SQLite.py", 0)
+            else:
+                res.ok("C05-S1", f"SQLite function `{rn}` is registered as {registered[rn]}: the catalogued meaning, float in float out")
     res.expect_count("C05-S1", f"catalogue rows marked y for {model}", n, 80)
 
 
